@@ -446,7 +446,8 @@ class EtherCat(Protocol):
         elif args:
             if not isinstance(data, int):
                 data = len(data)
-            return unpack(fmt, ret[:-data]) + (ret[-data:],)
+            split = len(ret) - data  # ret[:-data] is empty for data == 0
+            return unpack(fmt, ret[:split]) + (ret[split:],)
         else:
             return ret
 
